@@ -29,6 +29,9 @@ Checked, not translated (anything else raises Untranslatable; Model_Session.v do
     `self.fsm_runner.clear()`; `self._abandon_run()` (the attempt in progress - a task created by run() as
     `self._run_task = asyncio.ensure_future(self._run())` - is cancelled, run() swallows exactly that
     CancelledError and starts over);
+  * Peer._read_message_or_nop keeps the read task across its 100 ms waits; Peer._cancel_read forgets it and is
+    called only in the finally around the loop of _main; the loop starts with the reload hand-over (`if self._neighbor:`
+    replace_reload ..) and ends with `_has_pending_work` -> sleep(0) / sleep(0.001) + `if self._teardown: break`;
   * Peer._main: starts with `if self._teardown: raise Notify(6, 3)`; processes.up before the loop;
     the loop is `while not self._teardown`; ends with `raise Notify(6, self._teardown)`;
   * Protocol.accept/connect report `connected`; read_open/read_keepalive raise Notify(5,1)/(5,2) on another type;
@@ -422,6 +425,36 @@ def check_main(tree):
     want = ['await self._send_operational_messages()', 'await self._send_refresh_messages()']
     if order[:2] != want or '_send_route_updates' not in order[2] or '_send_eor_messages' not in order[3]:
         fail(PEER, f'_main send order changed: {order}')
+    # the read in progress: kept across the 100 ms waits, given up only when the loop is left
+    cr = find_function(tree, ['Peer', '_cancel_read'])
+    want = ["task = getattr(self, '_read_task', None)", 'self._read_task = None', 'if task is not None and (not task.done()):\n    task.cancel()']
+    if [u(x) for x in significant(cr.body)] != want:
+        fail(PEER, f'_cancel_read changed: {[u(x) for x in significant(cr.body)]}')
+    rm = find_function(tree, ['Peer', '_read_message_or_nop'])
+    want = [
+        "task = getattr(self, '_read_task', None)",
+        'if task is None:\n    task = asyncio.ensure_future(self.proto.read_message())\n    self._read_task = task',
+        'done, _ = await asyncio.wait({task}, timeout=0.1)',
+        'if not done:\n    return _NOP',
+        'self._read_task = None',
+        'return task.result()',
+    ]
+    if [u(x) for x in significant(rm.body)] != want:
+        fail(PEER, f'_read_message_or_nop changed: {[u(x) for x in significant(rm.body)]}')
+    uses = [n for n in ast.walk(f) if isinstance(n, ast.Call) and dotted(n.func) == 'self._cancel_read']
+    tries = [n for n in ast.walk(f) if isinstance(n, ast.Try) and n.finalbody and any(u(x) == 'self._cancel_read()' for x in n.finalbody)]
+    if len(uses) != 1 or len(tries) != 1 or loops[0] not in list(ast.walk(tries[0])):
+        fail(PEER, '_main: _cancel_read must be called exactly once, in the finally of the try around the loop')
+    rel = [x for x in loops[0].body if isinstance(x, ast.If) and u(x.test) == 'self._neighbor']
+    want = [
+        'previous = self._neighbor.previous.routes if self._neighbor.previous else []', 'current = self._neighbor.routes',
+        'self.neighbor.rib.outgoing.replace_reload(previous, current)', 'self._neighbor.previous = None', 'self._neighbor = None',
+    ]
+    if len(rel) != 1 or [u(x) for x in significant(rel[0].body)] != want or loops[0].body.index(rel[0]) > 1:
+        fail(PEER, f'_main: the reload hand-over at the top of the loop changed: {[u(x) for x in significant(rel[0].body)] if rel else None}')
+    tail = [u(x) for x in loops[0].body if isinstance(x, ast.If) and 'self._has_pending_work(' in u(x.test)]
+    if len(tail) != 1 or 'await asyncio.sleep(0.001)\n    if self._teardown:' not in tail[0]:
+        fail(PEER, f'_main: the end of an iteration is not `sleep(0) / sleep(0.001) + teardown test`: {tail}')
     return early, up_notify
 
 
